@@ -1,14 +1,77 @@
 """C25 — constraint_to_si never cuts off a satisfying assignment.
 prove (Lean: pre-image lemmas on wrapped intervals, bound bookkeeping) -> oracle on the real balancer: every
 satisfying assignment of every generated constraint is enumerated (width <= 8, 1..2 variables)."""
-import collections, itertools, logging
+import collections, itertools, logging, pickle
 
 from lib import vsa, vsa_expr as vx
 
 PROP = "C25"
 P = "Claripy.Props.C25."
-THEOREMS = []
-TESTS = []
+L = "Claripy.VSA."
+THEOREMS = [P + n for n in ("C25_preimage_add", "C25_pair_exact", "C25_lone_bound_not_a_preimage", "C25_extract_uge", "C25_extract_ne",
+                            "C25_extract_eq_not_pre", "C25_extract_ule_not_pre", "C25_shl_uge", "C25_shl_ule_not_pre", "C25_combine_bounds")] + \
+           [L + n for n in ("Win_preimage_add", "Win_rot", "cd_rot", "add_ule_pair", "add_uge_pair", "balAddPair_exact")]
+TESTS = [P + "test_pair_example"]
+
+
+def pair_correspondence(ctx):
+    """the bound pair of the Lean model (balAddPair, proved exact) vs the bound the real constraint_to_si returns for
+    x + c OP d and x - c OP d on a plain variable: same member sets, every (c, d) at width <= 4, sampled at 5..8 bits"""
+    import claripy
+    lines, wants = [], []
+    cases = []
+    for w in (1, 2, 3, 4):
+        for c in range(1 << w):
+            for d in range(1 << w):
+                for op in ("ULE", "ULT", "UGE", "UGT"):
+                    cases.append((w, op, c, d, "add"))
+                    if ctx.thorough() or (c + d) % 3 == 0:
+                        cases.append((w, op, c, d, "sub"))
+    for _ in range(ctx.pick(200, 4000)):
+        w = ctx.rng.choice([5, 6, 7, 8])
+        cases.append((w, ctx.rng.choice(["ULE", "ULT", "UGE", "UGT"]), ctx.rng.randrange(1 << w), ctx.rng.randrange(1 << w), ctx.rng.choice(["add", "sub"])))
+    bad = None
+    n = 0
+    for k, (w, op, c, d, kind) in enumerate(cases):
+        x = claripy.BVS("p%d" % k, w, explicit_name=True)
+        m = 1 << w
+        cc = c if kind == "add" else (m - c) % m          # x - c = x + (2^w - c)
+        lhs = x + claripy.BVV(c, w) if kind == "add" else x - claripy.BVV(c, w)
+        cst = getattr(claripy, op)(lhs, claripy.BVV(d, w))
+        if cst.op == "BoolV" or lhs.op not in ("__add__", "__sub__"):
+            continue            # folded by the constructor (c = 0, ...)
+        sat, repl = claripy.backends.vsa.constraint_to_si(cst)
+        real = None
+        if not sat:
+            real = "unsat"
+        else:
+            for e, b in repl:
+                if e is x:
+                    t = vsa.tup(claripy.backends.vsa.convert(b))
+                    real = set(vsa.gamma(t)) if isinstance(t, tuple) else set()
+            if real is None:
+                real = set(range(m))
+        lines.append("bal %s %d %d %d" % (op, w, cc, d))
+        wants.append((real, (w, op, c, d, kind)))
+    outs = ctx.driver(lines, exe="driver_vsa")
+    for o, (real, desc) in zip(outs, wants):
+        n += 1
+        ctx.cov["traces_validated_against_impl"] += 1
+        w = desc[0]
+        m = 1 << w
+        if o == "unsat":
+            model = "unsat-or-empty"
+        else:
+            lo, hi = map(int, o.split())
+            span = (hi - lo) % m
+            model = {(lo + j) % m for j in range(span + 1)}
+        # an unsatisfiable comparison is reported as unsat by the real code or bounded by the empty set
+        ok = (model == "unsat-or-empty" and real in ("unsat", set())) or (model == real)
+        if not ok and bad is None:
+            bad = "%s: model %s real %s" % (desc, sorted(model) if isinstance(model, set) else model, sorted(real) if isinstance(real, set) else real)
+    if bad:
+        ctx.tie_broken("corr:balance_add_pair", bad)
+    return n
 
 CMPS = ["ULT", "ULE", "UGT", "UGE", "SLT", "SLE", "SGT", "SGE", "eq", "ne"]
 
@@ -139,19 +202,19 @@ def check_constraint(c, xs, annos):
     except Exception as ex:  # noqa
         if type(ex).__name__ == "ClaripyZeroDivisionError":
             return None
-        return ("C25/constraint_to_si/raises-%s/%s" % (type(ex).__name__, shape_of(c)), "%s raises %r" % (c, ex))
+        return ("C25/constraint_to_si/raises-%s/%s" % (type(ex).__name__, root_class(c)), "%s raises %r" % (c, ex))
     if not sat_envs:
         return None
     if not sat:
-        return ("C25/sat-flag/unsat-with-model/%s" % shape_of(c), "%s: %d satisfying assignments (e.g. %s) but constraint_to_si reports unsatisfiable" % (c, len(sat_envs), sat_envs[0]))
+        return ("C25/sat-flag/unsat-with-model/%s" % root_class(c), "%s: %d satisfying assignments (e.g. %s) but constraint_to_si reports unsatisfiable" % (c, len(sat_envs), sat_envs[0]))
     for expr, bound in repl:
         try:
             b = claripy.backends.vsa.convert(bound)
         except Exception as ex:  # noqa
-            return ("C25/bound/not-convertible-%s/%s" % (type(ex).__name__, shape_of(c)), "%s: bound %s for %s: %r" % (c, bound, expr, ex))
+            return ("C25/bound/not-convertible-%s/%s" % (type(ex).__name__, root_class(c)), "%s: bound %s for %s: %r" % (c, bound, expr, ex))
         bt = vsa.tup(b)
         if not isinstance(bt, (tuple, str)) or (isinstance(bt, str) and not bt.startswith("bottom")):
-            return ("C25/bound/not-an-interval/%s" % shape_of(c), "%s: bound for %s is %r" % (c, expr, b))
+            return ("C25/bound/not-an-interval/%s" % root_class(c), "%s: bound for %s is %r" % (c, expr, b))
         for env in sat_envs:
             try:
                 v = vx.ev_ast(expr, env)
@@ -160,9 +223,30 @@ def check_constraint(c, xs, annos):
             if v is None:
                 continue
             if not vsa.member(bt, v):
-                return ("C25/bound/cuts-off-model/%s" % shape_of(c, expr), "%s: the assignment %s satisfies it and gives %s = %d, outside the returned bound %s" % (
+                return ("C25/bound/cuts-off-model/%s" % root_class(c), "%s: the assignment %s satisfies it and gives %s = %d, outside the returned bound %s" % (
                     c, env, expr, v, vsa.show(bt) if isinstance(bt, tuple) else bt))
     return None
+
+
+MODULAR = {"__add__", "__sub__", "__neg__", "__mul__"}
+WIDTH_CHANGE = {"ZeroExt", "SignExt", "Concat", "Extract"}
+SIGNED = {"SGE", "SGT", "SLE", "SLT"}
+
+
+def root_class(c):
+    """predicate class of a constraint by the root causes known for the balancer (a pure function of the constraint):
+    1. a compared term contains modular arithmetic (+, -, unary -, *): constants are moved across it as if it were
+       integer arithmetic (wrap-around; the implicit assumptions are attached to the outermost operator only);
+    2. a signed comparison of a term that changes width (ZeroExt/Concat/Extract/SignExt): the sign bit moves;
+    otherwise the detailed shape (never listed as a known finding)."""
+    ops = {n.op for n in c.children_asts()} | {c.op}
+    if ops & MODULAR and ops & (WIDTH_CHANGE | {"__lshift__", "LShR", "__and__", "If"}):
+        return "modular-arithmetic-combined-with-width-change-shift-mask-or-if"
+    if ops & MODULAR:
+        return "modular-arithmetic-only"
+    if ops & SIGNED and ops & WIDTH_CHANGE:
+        return "signed-comparison-through-width-change"
+    return "shape:" + shape_of(c)
 
 
 def shape_of(c, expr=None):
@@ -194,8 +278,8 @@ def run(ctx):
     ctx.cov["rule"] = ("case = constraint over 1..2 variables of width 1..8 (plain or annotated with a strided interval): comparison / equality of a shape "
                        "(x, x±c, c-x, x[h:l], Concat(0,x), Concat(x,c), ZeroExt, SignExt, x&m, x<<k, LShR, x*c, -x, If, x+y, one more nesting level) with a constant or "
                        "variable, Not/And/Or of such atoms, Boolean (dis)equalities; every assignment is enumerated; non-trivial = the constraint has a model and a bound is returned")
-    if THEOREMS or TESTS:
-        ctx.prove("ClaripyProofs.Props.C25", THEOREMS, tests=TESTS, driver_exe="driver_vsa")
+    ctx.prove("ClaripyProofs.Props.C25", THEOREMS, tests=TESTS, driver_exe="driver_vsa")
+    ctx.cov["pair_correspondence_cases"] = pair_correspondence(ctx)
     rng = ctx.rng
     fails = collections.defaultdict(list)
     stats = collections.Counter()
@@ -231,15 +315,35 @@ def run(ctx):
         stats["checked"] += 1
         ctx.distinct(str(c))
         if r:
-            fails[r[0]].append((len(str(c)), r[1]))
+            fails[r[0]].append((len(str(c)), r[1], c, xs, annos))
     for sig, lst in sorted(fails.items()):
-        ln, what = min(lst)
-        ctx.violation(sig, what + "  [%d case(s)]" % len(lst), {"what": what})
+        ln, what, c, xs, annos = min(lst, key=lambda t: (t[0], t[1]))
+        ctx.violation(sig, what + "  [%d case(s)]" % len(lst), {
+            "what": what, "constraint_pickle_hex": pickle.dumps(c).hex(),
+            "variables": [[x.args[0], x.size(), list(a) if a else None] for x, a in zip(xs, annos)]})
     ctx.cov["stats"] = dict(stats)
     ctx.cov["failing_classes_seen"] = {k: len(v) for k, v in sorted(fails.items())}
 
 
 def replay(ctx, obj):
-    print(obj["replay"]["what"])
-    print("(re-run ./check C25 with the recorded seed to regenerate the constraint)")
-    return 1
+    import claripy
+    from claripy.annotation import StridedIntervalAnnotation
+    logging.disable(logging.CRITICAL)
+    r = obj["replay"]
+    c = pickle.loads(bytes.fromhex(r["constraint_pickle_hex"]))
+    xs, annos = [], []
+    leaves = {l.args[0]: l for l in c.leaf_asts() if l.op == "BVS"}
+    for name, w, a in r["variables"]:
+        if name in leaves:
+            xs.append(leaves[name]); annos.append(tuple(a) if a else None)
+    print("constraint:", c, " variables:", [(x.args[0], vsa.show(a) if a else "unconstrained") for x, a in zip(xs, annos)])
+    try:
+        print("constraint_to_si:", claripy.backends.vsa.constraint_to_si(c))
+    except Exception as ex:  # noqa
+        print("constraint_to_si raises", repr(ex))
+    res = check_constraint(c, xs, annos)
+    if res and res[0] != "skip":
+        print("VIOLATION property=C25 replay=(given)"); print("failure:", res[0], "-", res[1])
+        return 1
+    print("no failure on the current tree")
+    return 0
